@@ -138,7 +138,7 @@ func c10Structured(r *fw.Rec, kind string, blk, nblk int) {
 			}
 		}
 	case "float":
-		for _, e := range expSweep(8, blk, nblk) {
+		for _, e := range expSweep(8, blk, nblk, r.Ctx().Thorough()) {
 			for _, m := range mantissas(23, rng, 3) {
 				for _, s := range []uint32{0, 1} {
 					b := s<<31 | uint32(e)<<23 | uint32(m)
@@ -167,7 +167,7 @@ func c10Structured(r *fw.Rec, kind string, blk, nblk int) {
 			add(fmt.Sprintf("0x%016X", d), "prng:"+f64Class(d))
 		}
 	case "double":
-		for _, e := range expSweep(11, blk, nblk) {
+		for _, e := range expSweep(11, blk, nblk, r.Ctx().Thorough()) {
 			for _, m := range mantissas(52, rng, 3) {
 				for _, s := range []uint64{0, 1} {
 					d := s<<63 | uint64(e)<<52 | m
@@ -192,7 +192,7 @@ func c10Structured(r *fw.Rec, kind string, blk, nblk int) {
 			}
 		}
 	case "x86_fp80":
-		for _, e := range expSweep(15, blk, nblk) {
+		for _, e := range expSweep(15, blk, nblk, r.Ctx().Thorough()) {
 			for _, m := range mantissas(64, rng, 2) {
 				for _, s := range []uint64{0, 1} {
 					se := s<<15 | uint64(e)
@@ -222,7 +222,7 @@ func c10Structured(r *fw.Rec, kind string, blk, nblk int) {
 			add(fmt.Sprintf("0xK%04X%016X", rng.Intn(1<<16), rng.Uint64()|1<<63), "prng")
 		}
 	case "fp128":
-		for _, e := range expSweep(15, blk, nblk) {
+		for _, e := range expSweep(15, blk, nblk, r.Ctx().Thorough()) {
 			for _, mh := range mantissas(48, rng, 1) {
 				for _, ml := range []uint64{0, 1, ^uint64(0), rng.Uint64()} {
 					for _, s := range []uint64{0, 1} {
@@ -250,7 +250,7 @@ func c10Structured(r *fw.Rec, kind string, blk, nblk int) {
 			add(fmt.Sprintf("0xL%016X%016X", rng.Uint64(), rng.Uint64()), "prng")
 		}
 	case "ppc_fp128":
-		for _, e := range expSweep(11, blk, nblk) {
+		for _, e := range expSweep(11, blk, nblk, r.Ctx().Thorough()) {
 			for _, m := range mantissas(52, rng, 1) {
 				for _, s := range []uint64{0, 1} {
 					hi := s<<63 | uint64(e)<<52 | m
@@ -267,11 +267,20 @@ func c10Structured(r *fw.Rec, kind string, blk, nblk int) {
 	c10Judge(r, fmt.Sprintf("%s-struct-%d", kind, blk), lits)
 }
 
-func expSweep(bits uint, blk, nblk int) []uint {
+func expSweep(bits uint, blk, nblk int, thorough bool) []uint {
 	maxE := uint(1)<<bits - 1
 	var out []uint
 	cands := []uint{0, 1, 2, maxE / 2, maxE/2 - 1, maxE/2 + 1, maxE - 2, maxE - 1, maxE}
-	for e := uint(3); e < maxE-2; e += 1 + maxE/40 {
+	// every exponent of float (the decimal/hex choice of the printer depends on
+	// the exponent: 2^25 and 2^26 were the only floats it printed inexactly);
+	// every exponent of double in the thorough tier
+	step := 1 + maxE/40
+	if bits <= 8 {
+		step = 1
+	} else if thorough {
+		step = 1 + maxE/2100
+	}
+	for e := uint(3); e < maxE-2; e += step {
 		cands = append(cands, e)
 	}
 	for i, e := range cands {
